@@ -522,7 +522,7 @@ def arr_attr(ex, obj, c: HArr, name):
     if name == "T" and len(c.shape) == 2:
         return new_array(ex, (c.shape[1], c.shape[0]), c.dtype, lambda ix: c.elem((ix[1], ix[0])))
     if name == "flags":
-        return VOpaque("ignore", None, {"label": "ndarray.flags"})
+        return VOpaque("ndflags", None, {"label": "ndarray.flags", "of": obj})
     return VLib("ndarray." + name, obj)
 
 
